@@ -38,7 +38,7 @@ Example ex_offset_identifies : forall c, In c [gz08; gz10; plain10; zstd21] ->
     log_lookup 4294967339 (append_records 4294967337 (decoded_view r)) =
       Some (mkEntry (Some [107]) (Some []) [] (if v0_10 c then Some 1600000000003000000 else None)).
 Proof.
-  intros c [<-|[<-|[<-|[<-|[]]]]]; eexists; eexists; eexists; repeat split; vm_compute; reflexivity.
+  intros c [<-|[<-|[<-|[<-|[]]]]]; eexists; eexists; eexists; repeat split; (vm_compute; reflexivity).
 Qed.
 
 Example ex_headers :
@@ -47,7 +47,7 @@ Example ex_headers :
     map snd (append_records 7 (decoded_view r)) =
       [mkEntry None (Some [49]) [mkHeader (Some [104]) None; mkHeader (Some []) (Some [1; 2])] (Some T0);
        mkEntry (Some []) None [] (Some (T0 - 2000000))].
-Proof. cbv zeta. eexists; eexists; repeat split; vm_compute; reflexivity. Qed.
+Proof. cbv zeta. eexists; eexists; repeat split; (vm_compute; reflexivity). Qed.
 
 (* routing: writable partitions [1; 2] (partition 0 has no leader), the partitioner answers index 1: partition 2 on the
    first pass, kept on two retries whatever the metadata and the partitioner would say then *)
@@ -81,7 +81,7 @@ Theorem marker_accepted_witness :
   held (0, 2) (bs_set st) = [fin_marker] /\
   exists x r, part_lookup (0, 2) (s_parts (bs_set st)) = Some x /\ build_part zstd21 x = Some r /\
     append_records 1004 (decoded_view r) = [(1004, mkEntry None None [] (Some 1600000000000000000))].
-Proof. cbv zeta. repeat split; try (vm_compute; reflexivity). eexists; eexists; repeat split; vm_compute; reflexivity. Qed.
+Proof. cbv zeta. repeat split; try (vm_compute; reflexivity). eexists; eexists; repeat split; (vm_compute; reflexivity). Qed.
 
 Theorem buffer_data_only_refuted :
   ~ (forall c st evs, data_only st -> data_only (bp_run c st evs)).
